@@ -74,6 +74,19 @@ def generate(tier, rng):
         c.op(e.id, 'variants', 'names/generic')
         if gen != 'lt':
             c.op(e.id, 'collect', 'iter/generic')
+    for j, gen in enumerate(('const', 'const')):
+        from ..spec import ESpec as _E, VSpec as _V
+        e = _E(id='c08gu%d' % j, name='EnC08gu%d' % j, generics=gen, derives=['EnumIter', 'EnumCount', 'VariantNames', 'VariantArray'], feats=['iter', 'count', 'vnames', 'varray'])
+        e.variants = [_V(ident='Left'), _V(ident='Right'), _V(ident='Mid', dis=(j == 1))]
+        if j == 1:
+            e.derives.remove('VariantArray'); e.feats.remove('varray')
+        e.extra['shape'] = 'unit-only enum with an unused const generic parameter'
+        c.add(e)
+        c.op(e.id, 'count', 'count/generic-unit')
+        c.op(e.id, 'variants', 'names/generic-unit')
+        c.op(e.id, 'collect', 'iter/generic-unit')
+        if j == 0:
+            c.op(e.id, 'varray', 'array/generic-unit')
     return c
 
 
